@@ -98,7 +98,8 @@ CHECKS = {
              '25 h, 3 d, NEVER) x 2 spellings (local-time field only / EXPIRES= with a deliberately different local field), '
              '<error> mappings, clock advances {1 s, 10 s, 2 h, 26 h, 4 d}; all histories to depth 4 (quick) / 5 (thorough) '
              'modulo canonical state; after every event: lookups by name and by address and the listener calls of that step '
-             'against the reference.',
+             'against the reference. The same search (two levels shallower) also runs through a real TorState: first mapping served in '
+             'the address-mappings/all bootstrap answer, later ones as 650 ADDRMAP events on the wire.',
         note='Trusted: the datetime shim (utcnow follows the scheduler clock), TZ=UTC. TorState._addr_map only forwards to '
              'AddrMap.update.'),
     'C04': dict(
